@@ -9,6 +9,7 @@ boundaries of the QUIC stream) and ALL read-size sequences `ns` (including zero-
 -/
 import Uquic.Proofs.H3Body
 import Uquic.Proofs.H3Writer
+import Uquic.Proofs.H3Uni
 import Uquic.Spec.H3Mon
 
 namespace Uquic.Props.C18
@@ -284,5 +285,26 @@ theorem noBody_established (w : RW) (hs : w.small = []) :
 /-- the hypotheses are satisfiable: a HEAD writer; a fresh writer after WriteHeader(204) -/
 example : NoBody ({ isHead := true } : RW) ∧ NoBody ((({} : RW).WriteHeader 204).getD {}) :=
   ⟨⟨rfl, Or.inl rfl⟩, (noBody_established {} rfl).2 204 rfl (Or.inl rfl)⟩
+
+/-! ### unidirectional streams -/
+open Uquic.Spec.H3Uni in
+/-- 6. `uni_stream_type_rules`.  For ANY sequence of peer-opened unidirectional stream types, as a
+    server or as a client, the per-type bookkeeping of `handleUnidirectionalStream` (table regenerated
+    from the source: which atomic flag each type's first-stream check uses, which code it closes
+    with) produces, stream by stream, exactly what RFC 9114 §6.2 asks for: one control, one QPACK
+    encoder and one QPACK decoder stream are accepted in any order, a second one of a kind closes the
+    connection with H3_STREAM_CREATION_ERROR, a push stream closes it (0x103 server / 0x108 client),
+    every other type only has its reading aborted with 0x103 and changes nothing. -/
+theorem uni_stream_type_rules (isServer : Bool) (ts : List Nat) :
+    uniOuts isServer {} ts = specOuts isServer {} ts :=
+  uniOuts_refines isServer ts {} {} ⟨rfl, rfl, rfl, rfl⟩
+
+open Uquic.Spec.H3Uni in
+/-- in particular: control + QPACK encoder + QPACK decoder + an unknown type, opened in every order,
+    are all accepted (the unknown one cancelled) and the connection stays open -/
+theorem uni_legal_streams_every_order :
+    ∀ isServer : Bool, ∀ ts ∈ perms [0, 2, 3, 33],
+      (uniRun isServer ts).closed = none ∧ (uniOuts isServer {} ts).all (fun o => o = .accepted ∨ o = .cancelled 0x103) := by
+  decide
 
 end Uquic.Props.C18
